@@ -285,6 +285,19 @@ HAND_DOCUMENTS = [
     "subscription s { type: type input: input enum: enum extend: extend fragment: fragment }",
 ]
 
+# const-ness: every place of the grammar whose directives / default values are [Const], once with a constant and once with a variable at
+# three depths (the second forms are outside the grammar)
+_CONST_SITES = [
+    "scalar S %s", "type T %s { f: Int }", "type T implements I %s", "type T { f: Int %s }", "type T { f(a: Int %s): Int }", "type T { f(a: Int = %v): Int }",
+    "interface I %s { f: Int }", "interface I %s", "union U %s = A", "union U %s", "enum E %s { A }", "enum E %s", "enum E { A %s }", "input In %s { x: Int }",
+    "input In %s", "input In { x: Int %s }", "input In { x: Int = %v }", "schema %s { query: Q }", "extend schema %s", "extend scalar S %s", "extend type T %s",
+    "extend type T %s { f: Int }", "extend interface I %s", "extend union U %s", "extend union U %s = A", "extend enum E %s", "extend enum E %s { A }",
+    "extend input In %s", "extend input In %s { x: Int }", "directive @x(a: Int = %v) on FIELD", "directive @x(a: Int %s) on FIELD",
+    "query ($a: Int = %v) { f }", "query ($a: Int %s) { f }", "query ($a: Int) %s { f }", "{ f %s }", "{ ...F %s }", "{ ... %s { f } }", "fragment F on T %s { f }",
+]
+_CONST_VALUES = ["1", "$v", "[$v]", "{k: $v}", "[[{k: [$v]}]]"]
+HAND_DOCUMENTS += [t.replace("%s", "@d(a: %s)" % v).replace("%v", v) for t in _CONST_SITES for v in _CONST_VALUES]
+
 
 def pipeline_corpus(tier, seed):
     import random
